@@ -1,0 +1,10 @@
+//go:build verif
+
+package server
+
+import "github.com/smallnest/rpcx/internal/verifhook"
+
+// VerifSetHook installs the callback invoked at the instrumentation points (internal/verifhook).
+func VerifSetHook(f func(point string, args ...interface{})) {
+	verifhook.Set(f)
+}
